@@ -1,6 +1,8 @@
 ------------------------------ MODULE Trace_Codec ------------------------------
 (* Trace validation for C01 / C02 / C03.  One trace per case, one event:                                          *)
-(*   xml_roundtrip / pb_roundtrip   d, desc (descriptor), orig (leaves of the objects the harness built),         *)
+(*   xml_roundtrip / pb_roundtrip   d, desc (descriptor), reuse (<<>> or <<[edit, w2]>>: the file read back is the  *)
+(*                                  SECOND one written by one writer object, after the edit), orig (leaves of the    *)
+(*                                  objects the harness built and edited),                                          *)
 (*                                  back (leaves read back, reals as closeness classes), exc ("" | write | read)  *)
 (*   xsd                            els / ids / refs (element entries of the written document), lxml verdict,      *)
 (*                                  reader ("ok" | "exc"), exc ("")                                      *)
@@ -12,12 +14,15 @@ VARIABLES tid, l, err
 tvars == <<tid, l, err>>
 
 RoundTrip(e, fmt) ==
-  LET pre == IF fmt = "xml" THEN "C01." ELSE "C02." IN
-  IF ~(IF fmt = "xml" THEN XmlExpressible(e.desc) ELSE PbExpressible(e.desc)) THEN {"driver/inexpressible-case"}
-  ELSE IF e.orig # Leaves(e.desc) THEN {"driver/alpha-gamma"}      \* the harness built / projected something else
-  ELSE IF e.exc = "write" THEN {pre \o "Total/write"}
-  ELSE IF e.exc = "read" THEN {pre \o "Total/read"}
-  ELSE Diffs(fmt, Expected(fmt, e.desc), e.back)                   \* every differing leaf, one clause each
+  LET pre == IF fmt = "xml" THEN "C01." ELSE "C02."
+      dE == EditOf(e.desc, e.reuse)          \* the scenario as it is when the (last) write happens
+      dW == WrittenBy(e.desc, e.reuse)       \* what that write is asked to put into the file
+      expr(d) == IF fmt = "xml" THEN XmlExpressible(d) ELSE PbExpressible(d)
+  IN IF ~expr(e.desc) \/ ~ReuseOK(e.desc, e.reuse) \/ ~expr(dE) THEN {"driver/inexpressible-case"}
+     ELSE IF e.orig # Leaves(dE) THEN {"driver/alpha-gamma"}      \* the harness built / edited / projected something else
+     ELSE IF e.exc = "write" THEN {pre \o "Total/write"}
+     ELSE IF e.exc = "read" THEN {pre \o "Total/read"}
+     ELSE Diffs(fmt, Expected(fmt, dW), e.back)                   \* every differing leaf, one clause each
 
 Single(c) == IF c = "" THEN {} ELSE {c}
 Clauses(e) ==        \* the set of clauses an event fails ({} = accepted)
